@@ -103,6 +103,19 @@ func (s *monSink) result(op byte) error {
 	if r.fault != nil && r.fault(s.which, op, n) {
 		return errors.New("injected fault")
 	}
+	// post-trigger write faults (the frame loop logs them and carries on): never on the
+	// writes of the step in which the recording started (those are the pre-trigger path)
+	if r.writeFaultPct > 0 && op == opWrite && s.which == sinkMotion && r.curRec != nil {
+		started := false
+		for _, o := range r.curRec.Ops[sinkMotion] {
+			if o.Op == opStart {
+				started = true
+			}
+		}
+		if !started && r.faultRNG.Intn(100) < r.writeFaultPct {
+			return errors.New("injected write fault")
+		}
+	}
 	if s.which == sinkMotion && r.cur != nil {
 		if op == opCheck && r.cur.CheckFail {
 			return errors.New("scripted: disk check refused")
@@ -163,7 +176,10 @@ type fsmRun struct {
 	cur    *fsmEvent
 	curRec *stepRec
 	fault  func(sink int, op byte, n int) bool
-	keepBg bool
+	// probability (percent) that a post-trigger WriteFrame on the motion sink fails
+	writeFaultPct int
+	faultRNG      *vRNG
+	keepBg        bool
 	now    time.Time
 	seq    int
 	acc    int
